@@ -200,7 +200,7 @@ def evaluate(case):
                 n1s = [n for n, _ in nodes1 if named_after(n, it["name"]) and (it["k"] not in ("test", "section", "addtest") or
                                                                                any(a[0] == "warning" for a in n.admonitions()))]
                 if len(n0s) == 1 and len(n1s) != 1:
-                    res.fail("doc-entry-missing:empty-doc:" + n0s[0].name, f"off={off}: entry of {it['k']} {it['name']!r} with an empty "
+                    res.fail("doc-entry-missing:empty-doc:" + n0s[0].name, f"off={off}: entry of {it['k']} {it.get('name', it.get('cmd', it['k']))!r} with an empty "
                              f"doccomment occurs {len(n1s)} times")
                 continue
             d0 = find(nodes0, marker)
@@ -210,24 +210,24 @@ def evaluate(case):
             n0, par0 = d0[0]
             if len(d1) != 1:
                 key = "doc-member-lost:" if par0 is not None else "doc-entry-missing:"
-                res.fail(key + n0.name, f"off={off}: entry of documented {it['k']} {it['name']!r} occurs {len(d1)} times")
+                res.fail(key + n0.name, f"off={off}: entry of documented {it['k']} {it.get('name', it.get('cmd'))!r} occurs {len(d1)} times")
                 continue
             n1, par1 = d1[0]
             if (par0 is None) != (par1 is None) or (par0 is not None and par0.arg != par1.arg):
-                res.fail("doc-entry-moved:" + n0.name, f"off={off}: {it['name']!r} moved from {par0 and par0.arg!r} to {par1 and par1.arg!r}")
+                res.fail("doc-entry-moved:" + n0.name, f"off={off}: {it.get('name', it.get('cmd', it['k']))!r} moved from {par0 and par0.arg!r} to {par1 and par1.arg!r}")
             if n0.name == "py:class":
                 if class_own(n0) != class_own(n1):
-                    res.fail("doc-entry-changed:py:class", f"off={off}: class {it['name']!r}: {class_own(n0)!r} vs {class_own(n1)!r}")
+                    res.fail("doc-entry-changed:py:class", f"off={off}: class {it.get('name', it.get('cmd', it['k']))!r}: {class_own(n0)!r} vs {class_own(n1)!r}")
             elif own_text(n0) != own_text(n1):
                 res.fail(("doc-member-changed:" if par0 is not None else "doc-entry-changed:") + n0.name,
-                         f"off={off}: {it['k']} {it['name']!r}: {own_text(n0)!r} vs {own_text(n1)!r}")
+                         f"off={off}: {it['k']} {it.get('name', it.get('cmd', it['k']))!r}: {own_text(n0)!r} vs {own_text(n1)!r}")
         # inner-class lists: documented inner classes stay listed in their (shown) outer class
         for it, _, par in all_items:
             if it["k"] == "class" and it.get("doc") and par is not None and par["k"] == "class" and \
                     (par.get("doc") or flags["cpp_class"]):
                 outer = [n for n, _ in nodes1 if n.name == "py:class" and n.arg == par["name"]]
                 if len(outer) == 1 and not any(f":class:`{it['name']}`" in l for l in outer[0].doc_lines()):
-                    res.fail("class-inner-changed", f"off={off}: documented inner class {it['name']!r} not listed in {par['name']!r}")
+                    res.fail("class-inner-changed", f"off={off}: documented inner class {it.get('name', it.get('cmd', it['k']))!r} not listed in {par['name']!r}")
         for n, _ in nodes1:
             if n.name == "py:class":
                 listed = [l for l in n.doc_lines() if l.startswith("* :class:")]
@@ -271,7 +271,7 @@ def evaluate(case):
                               and o["k"] not in ("dangling", "parseargs") and may_show(o)
                               and not (o.get("doc") and o["doc"].get("marker")))
                 if len(hits) > allowed:
-                    res.fail(f"undocumented-shown:{k}", f"off={off}: undocumented {k} {it['name']!r} has an entry {hits[0].name} {hits[0].arg!r}")
+                    res.fail(f"undocumented-shown:{k}", f"off={off}: undocumented {k} {it.get('name', it.get('cmd', it['k']))!r} has an entry {hits[0].name} {hits[0].arg!r}")
         # (c) members of hidden classes appear nowhere
         for it, _, par in all_items:
             if it["k"] in ("attr", "member") and id(it) in hidden_members:
@@ -283,7 +283,7 @@ def evaluate(case):
                 allowed = sum(1 for o, _, _ in all_items if o is not it and o["k"] in ("attr", "member") and o["name"] == it["name"]
                               and id(o) not in hidden_members and not (o.get("doc") and o["doc"].get("marker")))
                 if len(hits) > (0 if it.get("doc") and it["doc"].get("marker") else allowed):
-                    res.fail("member-of-hidden-class-shown", f"off={off}: {it['name']!r} shown although its class is hidden")
+                    res.fail("member-of-hidden-class-shown", f"off={off}: {it.get('name', it.get('cmd', it['k']))!r} shown although its class is hidden")
     res.nontrivial = nt
     for k in sorted(both):
         res.labels.append("both:" + k)
